@@ -168,11 +168,25 @@ fn check_c13(cases: &[Case], results: &[Option<RunResult>]) -> Vec<Violation> {
         let (a, b) = (grp[0], grp[1]);
         if let (Some(ra), Some(rb)) = (&results[a], &results[b]) {
             if ra.outcome != rb.outcome {
-                let kinds_differ = ra.outcome.is_ok() != rb.outcome.is_ok();
+                // one side renders, the other is too narrow (nothing worse)
+                let kinds_differ = (ra.outcome.is_ok() && matches!(rb.outcome, Outcome::TooNarrow)) || (rb.outcome.is_ok() && matches!(ra.outcome, Outcome::TooNarrow));
                 let doma = dom_of(ra);
                 let known = if kinds_differ && (cases[b].slice == "comment" || cases[b].slice == "span_wrap") {
                     Some("short_split_min_width")
-                } else if cases[b].slice == "span_wrap" && has_element(&doma, &["sup"]) {
+                } else if cases[b].slice == "span_wrap" && {
+                    // a <sup> whose whole text is digits: the superscript-digit special case only
+                    // sees a sole text child
+                    let mut digit_sup = false;
+                    walk(&doma, &mut |n, _| {
+                        if n.is("sup") {
+                            let t: String = visible_chars(std::slice::from_ref(n)).into_iter().collect();
+                            if !t.is_empty() && t.chars().all(|c| c.is_ascii_digit()) {
+                                digit_sup = true;
+                            }
+                        }
+                    });
+                    digit_sup
+                } {
                     Some("sup_digits_wrapped")
                 } else {
                     None
@@ -730,7 +744,13 @@ fn gen_c09(tier: &str, rng: &mut Rng) -> Vec<Case> {
         let tables = rng.chance(1, 3);
         let css = rng.chance(1, 3);
         let o = GenOpts { tables: if tables { 1 } else { 0 }, nested_tables: false, links: true, ids: false, pre: true, dl: true, imgs: true, strike: true, sup: false, colours: css, combining: false, wide: false, ..Default::default() };
-        let (html, _) = gen_doc(rng, o);
+        let (mut html, _) = gen_doc(rng, o);
+        // an annotating element around whole blocks: its annotation must reach the text inside
+        // list items, quotes, headings and table cells (they are rendered by nested sub-renderers)
+        if rng.chance(1, 6) {
+            let (open, close) = *rng.pick(&[("<pre>", "</pre>"), ("<s>", "</s>"), ("<em>", "</em>"), ("<code>", "</code>"), ("<a href=\"http://w.example/\">", "</a>"), ("<strong>", "</strong>")]);
+            html = format!("{}{}{}", open, html, close);
+        }
         let mut cfg = Cfg { deco: 2, ..Default::default() };
         cfg.doc_css = css;
         let w = if rng.chance(1, 4) { rng.range(1, 12) } else { rng.range(10, 100) };
